@@ -22,10 +22,18 @@ def gen(rng, tier):
     for _ in range(n):
         o = progs.Opts(open_leaves=0.5 if rng.random() < 0.3 else 0.0, control=False, cut=False, builtins=False, deep=rng.random() < 0.1)
         p = progs.gen_program(rng, o)
-        cases.append({'clauses': p['clauses'], 'queries': p['queries']})
+        adv = rng.random() < 0.4
+        if adv:
+            # identifiers that look like the names the compiler invents (x<N>, V_<name>, arg<i>, l<k>, cutIf<k>, <name>_<arity>) or like
+            # what another mangling scheme would invent (_<N>, _G<N>, ...), mixed with several `_` in the same clause
+            p = progs.adversarial_program(rng, p)
+        cases.append({'clauses': p['clauses'], 'queries': p['queries'], 'adversarial': adv})
     for _ in range(n // 4):
         p = progs.gen_alias_program(rng)
-        cases.append({'clauses': p['clauses'], 'queries': p['queries']})
+        adv = rng.random() < 0.3
+        if adv:
+            p = progs.adversarial_program(rng, p)
+        cases.append({'clauses': p['clauses'], 'queries': p['queries'], 'adversarial': adv})
     return cases
 
 def builtin_corpus():
